@@ -242,6 +242,13 @@ def gwEntries (u : Identity) : Headers :=
   [(hImpUser, [u.name])] ++ u.groups.map (fun g => (hImpGroup, [g])) ++
   u.extra.flatMap (fun e => e.2.map (fun v => (canonicalKey (hImpExtraPrefix ++ headerKeyEscape e.1), [v])))
 
+/-- what `WrapRequest` deletes (regenerated) is the whole family the property speaks of -/
+theorem wrap_prefix : hWrapDeletePrefix = hImpPrefix := by decide
+
+theorem delImpersonate_eq (h : Headers) :
+    delImpersonate h = h.filter (fun e => !hasPrefix (canonicalKey e.1) hImpPrefix) := by
+  simp only [delImpersonate, wrap_prefix]
+
 theorem wrapHeaders_eq (h : Headers) (u : Identity) (hu : hget h hImpUser = []) :
     wrapHeaders h u = hdel (delImpersonate h) hImpUser ++ gwEntries u := by
   simp [wrapHeaders, hu, hset, canonicalKey_hImpUser, addGroups_eq, addExtras_eq, gwEntries]
@@ -359,7 +366,7 @@ theorem wrap_values (token : Str) (up : Bool) (h1 : Headers) (u : Identity)
   have hC : ∀ e ∈ hdel (delImpersonate (if up then h1 else bearerAuth token h1)) hImpUser,
       hasPrefix (canonicalKey e.1) hImpPrefix = false ∧ (e ∈ h1 ∨ (up = false ∧ e = (hAuthorization, [bearerPrefix ++ token]))) := by
     intro e he
-    simp only [hdel, delImpersonate, List.mem_filter] at he
+    simp only [hdel, delImpersonate_eq, List.mem_filter] at he
     obtain ⟨⟨hm, hp⟩, _⟩ := he
     refine ⟨by simpa using hp, ?_⟩
     cases up
@@ -380,11 +387,11 @@ theorem wrap_values (token : Str) (up : Bool) (h1 : Headers) (u : Identity)
           hdel (delImpersonate h1) hImpUser ++ [(hAuthorization, [bearerPrefix ++ token])] := by
         have h1' : (!hasPrefix (canonicalKey hAuthorization) hImpPrefix) = true := by decide
         have h2' : (!(hAuthorization == hImpUser)) = true := by decide
-        simp [hdel, delImpersonate, List.filter_append, h1', h2']
+        simp [hdel, delImpersonate_eq, List.filter_append, h1', h2']
       have hrest : values (sendOver false (hdel (delImpersonate h1) hImpUser)) hAuthorization = [] := by
         apply values_send_nil
         intro e he
-        simp only [hdel, delImpersonate, List.mem_filter] at he
+        simp only [hdel, delImpersonate_eq, List.mem_filter] at he
         rw [I1 e he.1.1]
         exact I2 e he.1.1
       simp only [Bool.false_eq_true, if_false, hb, hsplit, sendOver_append, values_append, hrest]
@@ -392,7 +399,7 @@ theorem wrap_values (token : Str) (up : Bool) (h1 : Headers) (u : Identity)
     · have hrest : values (sendOver true (hdel (delImpersonate h1) hImpUser)) hAuthorization = [] := by
         apply values_send_nil
         intro e he
-        simp only [hdel, delImpersonate, List.mem_filter] at he
+        simp only [hdel, delImpersonate_eq, List.mem_filter] at he
         rw [I1 e he.1.1]
         exact I2 e he.1.1
       simp only [if_true, hrest]
@@ -558,7 +565,7 @@ theorem decode_wrapped (token : Str) (up : Bool) (h1 : Headers) (u : Identity)
       intro e he
       simp only [sendOver_eq, List.mem_map] at he
       obtain ⟨x, hx, rfl⟩ := he
-      simp only [hdel, delImpersonate, List.mem_filter] at hx
+      simp only [hdel, delImpersonate_eq, List.mem_filter] at hx
       exact not_extraPrefix_of_not_imp (by simpa using hx.1.2)
     rw [hC, List.nil_append]
     simp only [gwEntries, sendOver_append, decodeExtras_append, decodeExtras_send_extras]
